@@ -67,6 +67,23 @@ VCST_CFG = {
     'bodies_prelude': 'extern value_type g_vtype_cst;\n_Bool constant_lt(const constant *self, constant that);\n',
 }
 VCST_ROOTS = ['value_cst::cmp']
+STRT = r'(const )?(std::basic_string<char.*>|std::string|std::__cxx11::basic_string<char.*>)'
+VSTR_CFG = {
+    'names': {'value_str::cmp': 'value_str_cmp', 'zw_value::get_type': 'vs_get_type', 'value_type::operator==': 'vs_type_eq',
+              '_ZN10value_typeC1ERKS_': 'vs_type_copy'},
+    'types': {STRT: 'verif_str'},
+    'types_are_records': {STRT: True},
+    'record_ctypes': ['verif_str'],
+    'types_prelude': '#include "str_model.h"\n',
+    'globals': {'value_str::vtype': 'g_vtype_str'},
+    'bodies_prelude': 'extern value_type g_vtype_str;\n',
+    'extern': {r'std::operator<\|.*basic_string<.*': 'str_lt',
+               r'std::(__cxx11::)?basic_string<char.*>::compare\|.*\(const char \*\) const.*': 'str_compare_cstr',
+               r'std::(__cxx11::)?basic_string<char.*>::compare\|.*\(const (std::)?(__cxx11::)?basic_string<.*': 'str_compare_str',
+               r'std::(__cxx11::)?basic_string<char.*>::c_str': 'STR_CSTR', r'std::(__cxx11::)?basic_string<char.*>::data': 'STR_CSTR',
+               r'strcmp': 'verif_strcmp'},
+}
+VSTR_ROOTS = ['value_str::cmp']
 STK_ROOTS = ['(anonymous namespace)::compare_stack', 'stack::operator<', 'stack::operator==']
 
 ROOTS = ['constant::operator<', 'constant::operator>', 'constant::operator<=', 'constant::operator>=',
@@ -100,6 +117,11 @@ def jobs(tier):
     J.append(Job('value_cst_cmp', vsrc, 'h_value_cst_cmp', replace=['mpz_lt'], includes=inc, kind='proof', timeout=600,
                  cbmc_args=['--object-bits', '10'], inputs=INPUTS,
                  note='value_cst::cmp (value-cst.cc) on two symbolic constants against constant::operator< (lowered, linked in)'))
+    n = 2 if tier == 'quick' else 3
+    J.append(Job('bounded_value_str_cmp_len%d' % n, [os.path.join(HERE, 'vstr_harness.c'), os.path.join(OUT, 'vstr_bodies.c')],
+                 'hb_value_str_cmp', includes=inc, defines=['STR_N=%d' % n], kind='bounded', unwind=n + 3, timeout=900,
+                 cbmc_args=['--object-bits', '10'], inputs=['an', 'bn', 'sa[*', 'sb[*'],
+                 note='bounded: two byte strings of length <= %d over all 256 byte values (embedded NUL, high bytes); std::string by a model' % n))
     J.append(Job('stack_control', ssrc, 'hb_control', includes=inc, defines=['STK_N=2', 'VERIF_CONTROL'], kind='control',
                  expect='fail', unwind=4, timeout=300, cbmc_args=['--object-bits', '10']))
     return J
@@ -113,7 +135,8 @@ ASSUMPTIONS = [
     'domain objects modelled as elements of one array so that comparing their addresses is defined; at most 4 distinct domains + null among three constants',
     'compare_stack (bounded jobs): the virtual value::cmp is modelled (different types fail, one type totally ordered by an abstract key); std::vector<unique_ptr<value>> by props/c11/vecp_model.h',
     'comparison_result: diagnostics to std::cerr dropped; value::cmp by the same model',
-    'SLICE: per-type cmp of strings/sequences/DIEs/address sets are NOT covered',
+    'value_str::cmp (bounded job): std::string by props/c09/str_model.h (NUL-terminated storage, bytewise traits compare)',
+    'SLICE: per-type cmp of sequences and DIEs are NOT covered (address sets: see C16)',
 ]
 EXPLANATION = 'constant::operator< and derived operators only; see DESIGN.md section 4 C09.'
 
@@ -127,7 +150,8 @@ def prepare(tier):
     sw = vlib.extract('stk', 'libzwerg/stack.cc', STK_CFG, STK_ROOTS, OUT)
     cw = vlib.extract('cmp', 'libzwerg/builtin-cmp.cc', CMP_CFG, CMP_ROOTS, OUT)
     vw = vlib.extract('vcst', 'libzwerg/value-cst.cc', VCST_CFG, VCST_ROOTS, OUT)
-    lw.report['functions'] += vw.report['functions']
+    sw2 = vlib.extract('vstr', 'libzwerg/value-str.cc', VSTR_CFG, VSTR_ROOTS, OUT)
+    lw.report['functions'] += vw.report['functions'] + sw2.report['functions']
     lw.report['functions'] += cw.report['functions']
     lw.report['functions'] += sw.report['functions']
     lw.report['virtual_calls'] += sw.report['virtual_calls']
@@ -183,7 +207,28 @@ def replay_words():
     return {'reproduced': bool(bad), 'disagreements_on_real_library': bad[:6], 'pairs_tried': len(pairs)}
 
 
+def replay_strings(r):
+    def num(x):
+        t = str(x)
+        neg = t.strip().startswith('-')
+        v = int(''.join(ch for ch in t if ch.isdigit()) or 0)
+        return (-v if neg else v) & 255
+    def lit(prefix, n):
+        bs = [num(r.cex.get('%s[%dl]' % (prefix, i), 0)) for i in range(n)]
+        return bytes(bs), '"' + ''.join('\\x%02x' % b for b in bs) + '"'
+    an = int(''.join(ch for ch in str(r.cex.get('an', 0)) if ch.isdigit()) or 0)
+    bn = int(''.join(ch for ch in str(r.cex.get('bn', 0)) if ch.isdigit()) or 0)
+    (ab, al), (bb, bl) = lit('sa', an), lit('sb', bn)
+    qs = ['%s %s ?lt' % (al, bl), '%s %s ?eq' % (al, bl), '%s %s ?gt' % (al, bl), '%s dup ?eq' % al]
+    res = vlib.zw_queries(qs, OUT)
+    got = [bool(c) for c, _ in res]
+    exp = [ab < bb, ab == bb, ab > bb, True]
+    return {'reproduced': got != exp, 'a': list(ab), 'b': list(bb), 'queries': qs, 'real_library_lt_eq_gt_selfeq': got, 'expected': exp}
+
+
 def replay(r):
+    if r.job.name.startswith('bounded_value_str_cmp'):
+        return replay_strings(r)
     if r.job.name == 'comparison_words':
         return replay_words()
     return replay_axioms(r)
